@@ -16,9 +16,6 @@
 #ifndef FEAT_CSUM		/* 0 none, 1 = COMPAT_CHECKSUM (v1), 2 = CSUM_V2, 3 = CSUM_V3 */
 #define FEAT_CSUM 0
 #endif
-#if FEAT_CSUM
-#error "checksum configurations (v1/v2/v3) are not built: outside, see spec.py"
-#endif
 #ifndef FEAT_ASYNC
 #define FEAT_ASYNC 0
 #endif
